@@ -314,9 +314,7 @@ def expected_attributes(w: Walk, cfgdb_by_id=None):
             else:
                 nm, t = ent
                 v = ("eq", dec(val, t))
-            if nm in spec:
-                dup.add(nm)
-            else:
+            if nm not in spec:  # (a key repeated in one message is the sender's doing, not the definition's)
                 order.append(nm)
             spec[nm] = v
     return [(n, spec[n]) for n in order], dup
